@@ -42,7 +42,38 @@ def _small_int_limbs(f, arr):
     return None
 
 
+def _as_u64_of_bytes(a, b):
+    """b0 | b1 << 8 | ... | b7 << 56 (bytes widened to u64, in any association / order)  ==  u64::from_le_bytes([b0..b7])"""
+    parts = []
+    stack = [a, b]
+    while stack:
+        x = stack.pop()
+        if isinstance(x, T) and x.op == "bor":
+            stack += list(x.args)
+        else:
+            parts.append(x)
+    if len(parts) != 8:
+        return None
+    slots = {}
+    for x in parts:
+        sh = 0
+        if x.op == "shl" and x.args[1].op == "lit" and isinstance(x.args[1].args[0], int):
+            sh, x = x.args[1].args[0], x.args[0]
+        while x.op == "cast" and x.args[0] in ("u64", "u128", "usize"):
+            x = x.args[1]
+        if sh % 8 != 0 or not (0 <= sh < 64) or sh // 8 in slots:
+            return None
+        slots[sh // 8] = x
+    if sorted(slots) != list(range(8)):
+        return None
+    return mk("u64_of_le_bytes", mk("array", *[slots[j] for j in range(8)]))
+
+
 def mk(op, *args):
+    if op == "bor" and len(args) == 2 and all(isinstance(x, T) for x in args):
+        r = _as_u64_of_bytes(args[0], args[1])
+        if r is not None:
+            return r
     if op == "from_le_limbs" and len(args) == 2 and isinstance(args[1], T) and args[1].op == "array":
         r = _small_int_limbs(args[0], args[1])
         if r is not None:
